@@ -7,6 +7,7 @@ CONSTANTS
   MaxLoss = 9
   MaxNegLoss = 2
   MaxRestarts = 0
+  MaxSlow = 0
   PeerModes <- ModesSL
   DenyReplies <- DenyOne
   AckTails <- TailsRssi
